@@ -84,6 +84,10 @@ theorem C05_area_preserved (c s : Rat) (h : c ^ 2 + s ^ 2 = 1) (t : Pt) (l : Lis
 theorem C05_polygon_ctor_commutes (c s : Rat) (t : Pt) (hk : 0 < c ^ 2 + s ^ 2) (l : List Pt) :
     polyMk (l.map (tr c s t)) = (polyMk l).map (List.map (tr c s t)) := polyMk_map c s t hk l
 
+/-- what `Polygon.__init__` stores is in normal form (constructing again changes nothing): the well-formedness hypothesis
+    `Shape.WF` / `Lanelet.WF` of the `all_moved` theorems holds for every polygon that came out of the constructor. -/
+theorem C05_polygon_normal_form (vs r : List Pt) (h : polyMk vs = .ok r) : polyMk r = .ok r := polyMk_idem vs r h
+
 /-- the corner points of the moved rectangle (centre moved, orientation `θ + a`: angle addition for its cosine and sine)
     are the moved corner points: length and width are untouched, the rectangle is moved as a rigid body. -/
 theorem C05_rect_corners (c s : Rat) (t ctr : Pt) (l w cθ sθ : Rat) :
